@@ -190,6 +190,15 @@ def main():
     big_inputs.append(("token-limit", ("a " * 66000).encode(), None))
     big_inputs.append(("token-limit", ("a;" * 120000).encode(), "lexreject"))
     big_inputs.append(("near-token-limit", ("struct S;" * 21000).encode(), "accept"))
+    # the token buffer filled to the token (sources under 128 KiB hold 65536 tokens including the end-of-source sentinels): every
+    # count around the capacity, with a complete last declaration and with one that is cut off by the end of the file
+    for total in ((65530, 65533, 65534, 65535, 65536, 65537) if thorough else (65534, 65535, 65536)):
+        for tail_name, tail, ntail in ((("complete", "", 0), ("fn", "fn", 1), ("pub", "pub", 1), ("open-if", "fn f(){if", 6),
+                                        ("open-assignment", "fn f(){x=", 7), ("open-struct", "struct S{", 3), ("open-string", 'import "x', 2))
+                                       if thorough else (("fn", "fn", 1), ("open-if", "fn f(){if", 6))):
+            k, rest = divmod(total - ntail, 7)
+            src = "const A:u8=1;" * k + ";" * rest + tail
+            big_inputs.append(("token-buffer-exact-fit:%d:%s" % (total, tail_name), src.encode(), None))
     # long flat lists (no nesting): tens of thousands of statements, parameters, members, elements, arguments, fields and
     # declarations in sources sparse enough to stay under the token limit; the parse tree links list items, and whoever
     # walks a list (the XML dump, the header) must not need a stack as deep as the list is long
